@@ -272,6 +272,7 @@ def _campaign_templates(ck: Check, quick: bool) -> None:
     except ImportError:
         return
     tpl_campaign.campaign_templates(ck, 60 if quick else 600)
+    tpl_campaign.campaign_tpl_strings(ck, 300 if quick else 3000)
 
 
 def run(ck: Check) -> None:
